@@ -20,7 +20,7 @@ type call struct {
 	Root      string  `json:"root,omitempty"` // how the root is supplied: typed | value | generic | nil
 	Cache     string  `json:"cache,omitempty"`
 	Opts      expOpts `json:"opts"`
-	EmptyBase bool    `json:"empty_base,omitempty"` // non-nil options whose RelativeBase is the empty string
+	EmptyBase bool    `json:"empty_base,omitempty"`    // non-nil options whose RelativeBase is the empty string
 	RefJSON   bool    `json:"ref_from_json,omitempty"` // resolvers: the reference is decoded from {"$ref": elem} instead of built with MustCreateRef
 }
 
